@@ -240,10 +240,10 @@ def check_state(ctx, imp, store, flavour, topo, script):
                     continue
                 handles['service'] = h0
                 ctx.count('ops:disconnect-through-creation-time-handle')
-                # a handle that was already out of date before the call (the interface was connected through another
-                # handle): only the model effect is judged for it, not its list afterwards
-                pre_stale = sorted(i.node_id for i in h0.interface_list) != sorted(tm.ifaces_of_service(h0.node_id))
-                if pre_stale:
+                # a handle made before the service got (some of) its interfaces through other handles: what the handle itself
+                # remembers is out of date before the call; what it reports afterwards is judged like any other handle's
+                kept = getattr(h0, '_interfaces', None)
+                if kept is None or sorted(i.node_id for i in kept) != sorted(tm.ifaces_of_service(h0.node_id)):
                     ctx.count('ops:disconnect-through-out-of-date-handle')
             elif op['op'] in ('disconnect_interface', 'service_remove_interface'):
                 handles['service'] = topogen.get_service(topo, op['service'])
@@ -310,7 +310,7 @@ def check_state(ctx, imp, store, flavour, topo, script):
         if others_after != others_before:
             ctx.violation(f'C08/{op["op"]}-touches-other-graph', 'a removal does not touch other graphs', w)
         # handle consistency
-        if exc is None and op.get('cached') is not False and not pre_stale:
+        if exc is None and op.get('cached') is not False:
             for k, h in handles.items():
                 nid = h.node_id
                 if nid not in post['nodes']:
